@@ -390,6 +390,12 @@ impl Scen {
                             Act::CloseBalance { .. } => {
                                 self.dust_a[bi] += big(fx(was.asset_shares));
                                 self.dust_l[bi] += big(fx(was.liability_shares));
+                                let thr = big(I80F48::from_num(0.0001).to_bits());
+                                let va = (big(fx(was.asset_shares)) * big(fx(post.asset_share_value))) >> 48u32;
+                                let vl = (big(fx(was.liability_shares)) * big(fx(post.liability_share_value))) >> 48u32;
+                                if va >= thr || vl >= thr {
+                                    rep.fail(format!("C02 close_balance abandoned more than dust (asset value bits {}, liability value bits {}); hist {:?}", va, vl, self.hist));
+                                }
                             }
                             _ => rep.fail(format!("C16 position in bank {} vanished on {:?}; hist {:?}", bi, act, self.hist)),
                         }
